@@ -16,6 +16,7 @@ mod abi_ops;
 mod abi_fixed;
 mod gen_abi;
 mod crypto_ops;
+mod intro_ops;
 
 fn main() {
     std::panic::set_hook(Box::new(|_| {}));
@@ -49,6 +50,9 @@ fn dispatch(op: &str, toks: &[&str]) -> String {
         return r;
     }
     if let Some(r) = abi_ops::dispatch(op, toks) {
+        return r;
+    }
+    if let Some(r) = intro_ops::dispatch(op, toks) {
         return r;
     }
     if op.starts_with("ty_") {
